@@ -921,6 +921,19 @@ class C20(Prop):
                 extra.append(inputs_lit(toks))
             tag = 'w' if ill_formed_items(g) else 's'
             lines.append(case_line(f'{tag}{n}', g, inputs + ' ' + ' '.join(extra), kind=kind, **kw))
+        # failing memoized parsers retried at the same position under the wrappers that unwrap the pending error
+        inp = inputs_all(4, [gen.A, gen.B, gen.EA])
+        n = len(lines)
+        for g in [('just', [gen.A]), ('then', ('just', [gen.A]), ('just', [gen.B])), ('oneof', [gen.A, gen.B]), ('not', ('just', [gen.A])),
+                  ('filter', ('tokis', gen.A), ('any',)), ('collect', 'vec', ('rep', ('just', [gen.A]), 1, None))]:
+            d = ('memo', 51, g)
+            for w in gen.DECORATIONS + gen.RECOVERIES[:3]:
+                a_ = w(('call', 0))
+                for main in [('or', ('then', a_, ('just', [gen.B])), ('then', a_, ('just', [gen.A]))),
+                             ('choices', [('then', a_, ('just', [gen.B])), ('then', ('ornot', a_), ('just', [gen.EA])), a_])]:
+                    for ek in ('rich', 'empty'):
+                        lines.append(case_line(f's{n}', main, inp, defs=[d], ek=ek))
+                        n += 1
         return lines
 
     def compare(self, line, k, impl_M, model_M, spec_S):
@@ -1205,8 +1218,43 @@ REC_FAMILIES = [
 ]
 
 
+def _deep_worker(args):
+    import subprocess, vcheck as vc
+    probe, depth, mode = args
+    try:
+        p = subprocess.run([os.path.join(vc.HBIN_DIR, 'h_deep'), probe, str(depth), mode], stdout=subprocess.PIPE, stderr=subprocess.PIPE,
+                           text=True, timeout=120)
+        return probe, depth, mode, p.returncode, p.stdout.strip(), p.stderr.strip()[-200:]
+    except subprocess.TimeoutExpired:
+        return probe, depth, mode, -9, '', 'timeout'
+
+
 class C12(Prop):
     name = 'C12'; module = 'C12'; claimed = True
+    bins = ['h_str_rich', 'h_slice_rich', 'h_deep']
+
+    def custom_run(self, lines, tier, seed, jobs):
+        import vcheck, multiprocessing
+        tot, fails = vcheck.run_cases(self.name, lines, jobs=jobs, timeout=900 if tier == 'quick' else 3600)
+        # runtime part (supporting evidence, not a theorem): every recursion site goes through the stack-growing guard, so a
+        # parser nested 10^5 (thorough: 10^6) levels deep returns on a 512 KiB thread; an unguarded site overflows and kills the probe
+        depths = [1000, 100000] if tier == 'quick' else [1000, 100000, 1000000]
+        jobsl = [(pr, d, m) for pr in ('parens', 'mutual', 'pratt_prefix', 'pratt_postfix', 'pratt_infixr', 'pratt_infixl')
+                 for d in depths for m in ('parse', 'check')]
+        with multiprocessing.Pool(min(jobs, 6)) as pool:
+            res = pool.map(_deep_worker, jobsl)
+        for probe, depth, mode, rc, out, err in res:
+            tot['pairs'] += 1
+            tot['nontrivial'] += 1
+            want = f'ok {probe} {depth} ' + (f'Some({depth})' if mode == 'parse' else 'accepted=true')
+            key = 'deep:ok' if out == want else 'deep:FAIL'
+            tot['outcomes'][key] = tot['outcomes'].get(key, 0) + 1
+            if out != want:
+                tot['pred_fail'] += 1
+                self.fail(tot, fails, 'pred', None, 0,
+                          f'DEEP-NESTING probe {probe} depth {depth} ({mode}) on a 512 KiB stack: exit status {rc}, output {out!r} {err!r}; expected {want!r}')
+        return tot, fails
+
     title = 'recursive parsers equal their unrolling and nest to any depth'
     rule = ('guarded recursive grammar families (single and mutually recursive definitions; recursion under delimiters, repetition, '
             'lookahead, option, recovery), built with Recursive::declare/define and with recursive(); every input up to the bound over '
@@ -1322,7 +1370,7 @@ class C13(Prop):
         import multiprocessing
         n = max(1, min(jobs, len(lines)))
         chunks = [lines[i::n] for i in range(n)]
-        thread_cmds = ['THREADS %d %d' % (t, 40 if tier == 'quick' else 400) for t in (2, 4, 8)]
+        thread_cmds = ['WRAPPERS'] + ['THREADS %d %d' % (t, 40 if tier == 'quick' else 400) for t in (2, 4, 8)]
         chunks.append(thread_cmds)
         with multiprocessing.Pool(jobs) as pool:
             results = pool.map(_hist_worker, [(c, seed) for c in chunks if c])
@@ -1344,7 +1392,7 @@ class C13(Prop):
                 steps, diffs = int(kv['steps']), int(kv['diffs'])
                 tot['pairs'] += steps
                 tot['nontrivial'] += steps * 2 // 3
-                key = 'threads' if cid.startswith('T') else 'history'
+                key = 'threads' if cid.startswith('T') else 'wrappers' if cid.startswith('W-') else 'history'
                 tot['outcomes'][key] = tot['outcomes'].get(key, 0) + steps
                 if diffs:
                     tot['pred_fail'] += diffs
